@@ -20,7 +20,10 @@
 // /First, /Parent, /Last cycles and self references, absurd /Count values, deep /First chains
 // and long /Next chains are read with api.Bookmarks, api.ExportBookmarksFile and (on the context
 // as read, without validation) pdfcpu.BookmarksForOutlineItem; each call must return (value or
-// error) without panic within the CPU bound measured by the kernel.
+// error) without panic within the CPU bound measured by the kernel. Hand-made outlines (hand.go)
+// repeat every cycle shape with the items on the cycle drawn from every item kind the walker
+// distinguishes (regular, GoTo action, URI action, empty / missing title, title only, unresolved
+// named destination, page out of range), alone and in pairs, at top level and in a kids list.
 package main
 
 import (
@@ -56,8 +59,9 @@ type rtCase struct {
 }
 
 type hostileCase struct {
-	Attack string `json:"attack"`
-	Seed   uint64 `json:"seed"`
+	Attack string    `json:"attack"`
+	Seed   uint64    `json:"seed"`
+	Hand   *handSpec `json:"hand,omitempty"` // hand-made outline (hand.go); Attack is "Hand-<shape>"
 }
 
 type replayCase struct {
@@ -394,6 +398,13 @@ func refOf(o pdfgen.Object) (pdfgen.Ref, bool) { r, ok := o.(pdfgen.Ref); return
 
 // buildHostile returns the bytes of the attacked document ("" description if the attack does not apply).
 func buildHostile(hc hostileCase) ([]byte, string, bool) {
+	if hc.Hand != nil {
+		data, desc, err := buildHand(*hc.Hand)
+		if err != nil {
+			panic(fmt.Sprintf("hand-made outline: %v", err))
+		}
+		return data, desc, true
+	}
 	rng := rand.New(rand.NewPCG(hc.Seed, 0xBAD36))
 	ds := pdfgen.DocSpec{
 		Seed: rng.Uint64(), Pages: 2 + rng.IntN(4), Filters: pdfgen.FiltersFlate,
@@ -533,7 +544,14 @@ const slowCallMs = 10000
 func judgeHostile(t *vk.T, hc hostileCase, desc string, res []callResult) {
 	for j, r := range res {
 		a := apis[j]
-		t.Eval(fmt.Sprintf("hostile|%s|%s|%s", hc.Attack, a, r.Outcome))
+		if hc.Hand != nil {
+			t.Eval(fmt.Sprintf("hostile|%s|%s|%s|%s", hc.Attack, hc.Hand.id(), a, r.Outcome))
+			if r.Outcome == "error" && strings.Contains(r.Detail, "circular") {
+				t.Count("hand_"+a+"_cycle_reported", 1)
+			}
+		} else {
+			t.Eval(fmt.Sprintf("hostile|%s|%s|%s", hc.Attack, a, r.Outcome))
+		}
 		t.Count("hostile_"+hc.Attack+"_"+r.Outcome, 1)
 		where := fmt.Sprintf("attack=%s/api=%s", hc.Attack, a)
 		what := fmt.Sprintf("%s (%s): %s after %d ms CPU: %s", hc.Attack, desc, r.Outcome, r.CPUms, r.Detail)
@@ -574,7 +592,7 @@ func main() {
 		t.Assume("titles contain no C0 control characters and are not empty (pdfcpu drops control bytes from titles and skips untitled items when reading)")
 		t.Assume("colour components are compared within 1e-6 of their float32 value (pdfcpu holds float32, writes 12 decimals)")
 		t.Assume("/Count values are observed (counters) but not judged: the property names titles, pages, nesting, order, colour, bold, italic")
-		t.Assume(fmt.Sprintf("termination: CPU bound %d s per child batch of <= %d documents (3 calls each; normal cost: milliseconds); memory bound %d MiB; a wall-clock watchdog of %v without reaching the CPU bound is inconclusive", cpuBoundSec, batchSize, memBoundByte>>20, wallWatchdog))
+		t.Assume(fmt.Sprintf("termination: CPU bound %d s per child batch of <= %d documents (%d s for the hand-made outlines of <= 7 items; 3 calls each; normal cost: milliseconds); memory bound %d MiB; a wall-clock watchdog of %v without reaching the CPU bound is inconclusive", cpuBoundSec, batchSize, cpuBoundHandSec, memBoundByte>>20, wallWatchdog))
 		t.Assume("pdfgen outlines that are not page-ordered are exported but not re-imported (ImportBookmarks refuses them by design)")
 
 		if t.Replay != nil {
@@ -586,7 +604,11 @@ func main() {
 			case rc.RT != nil:
 				runRoundTrip(t, 0, *rc.RT, nil)
 			case rc.Hostile != nil:
-				runHostileCases(t, []hostileCase{*rc.Hostile})
+				bound := cpuBoundSec
+				if rc.Hostile.Hand != nil {
+					bound = cpuBoundHandSec
+				}
+				runHostileCases(t, []hostileCase{*rc.Hostile}, "replay", bound)
 			}
 			t.Eval("replay-a")
 			t.Eval("replay-b")
@@ -618,12 +640,21 @@ func main() {
 				hcs = append(hcs, hostileCase{Attack: a, Seed: rng.Uint64()})
 			}
 		}
-		runHostileCases(t, hcs)
+		runHostileCases(t, hcs, "hostile", cpuBoundSec)
+
+		// hand-made outlines (hand.go): every cycle shape x every item kind (pair) on the cycle x level
+		var hand []hostileCase
+		for _, h := range handSpecs() {
+			h := h
+			hand = append(hand, hostileCase{Attack: "Hand-" + h.Shape, Hand: &h})
+		}
+		t.Count("hand_made_outlines", int64(len(hand)))
+		runHostileCases(t, hand, "hand", cpuBoundHandSec)
 	})
 }
 
-func runHostileCases(t *vk.T, hcs []hostileCase) {
-	dir := filepath.Join(t.Scratch(), "hostile")
+func runHostileCases(t *vk.T, hcs []hostileCase, sub string, cpuBound int) {
+	dir := filepath.Join(t.Scratch(), sub)
 	if err := os.MkdirAll(dir, 0o755); err != nil {
 		t.Broken("mkdir: %v", err)
 	}
@@ -655,7 +686,7 @@ func runHostileCases(t *vk.T, hcs []hostileCase) {
 		for _, x := range bs[lo:hi] {
 			files = append(files, x.file)
 		}
-		res := runHostile(files)
+		res := runHostile(files, cpuBound)
 		for i, x := range bs[lo:hi] {
 			if res[i] == nil {
 				t.Inconclusive("hostile-no-verdict")
